@@ -297,6 +297,7 @@ Fixpoint dedup_peers (seen : list Z) (l : list peer) : list peer :=
 Definition on_create (n : node) (src : Z) (cid ident npk : Z) (X : pk) (o : oracle) : out :=
   if negb (n_any_flag n) then done n []
   else if ahas cid (n_dreq n) then done n []
+  else if ahas cid (n_circ n) || ahas cid (n_relay n) || ahas cid (n_exit n) then done n []   (* id in use *)
   else if n_max_joined n <=? zlen (n_relay n) + zlen (n_exit n) then done n []
   else
     let y := sk_of (o_x o) in
@@ -371,6 +372,8 @@ Definition on_created (n : node) (src : Z) (cid ident : Z) (Y : pk) (au : tag) (
       match aget (q_from q) (n_exit n1) with
       | None => done n1 []
       | Some eh =>
+          if ahas (q_from q) (n_relay n1) then done n1 []         (* already extended *)
+          else
           let ks := h_keys eh in
           let bw := mkRoute (q_from q) (mkHop (q_peer q) ks None) false in
           let fw := mkRoute (q_to q) (mkHop (q_to_peer q) ks None) true in
@@ -400,6 +403,9 @@ Definition handle (n : node) (src : Z) (m : msg) (o : oracle) : out :=
   | MExtended cid ident Y au ce => on_extended n src cid ident Y au ce o
   end.
 
+(* try: ... except Exception: log *)
+Definition swallow (r : out) : out := (fst (fst r), snd (fst r), None).
+
 (* RequestCache._on_timeout + RetryRequestCache.on_timeout + the retry-later task *)
 Definition retry_timeout (n : node) (cid : Z) (o : oracle) : out :=
   match aget cid (n_retry n) with
@@ -414,13 +420,13 @@ Definition retry_timeout (n : node) (cid : Z) (o : oracle) : out :=
             match r_peers r with
             | [] => done (schedule_rm n1 cid) []
             | _ => if r_tries r <? 1 then done (schedule_rm n1 cid) []
-                   else send_initial_create n1 cid (r_peers r) (r_tries r) o
+                   else swallow (send_initial_create n1 cid (r_peers r) (r_tries r) o)
             end
           else
             match r_keys r with
             | [] => done (schedule_rm n1 cid) []
             | _ => if r_tries r <? 1 then done (schedule_rm n1 cid) []
-                   else send_extend n1 cid (r_keys r) (r_tries r) o
+                   else swallow (send_extend n1 cid (r_keys r) (r_tries r) o)
             end
       end
   end.
@@ -534,6 +540,7 @@ Arguments on_created {C}.
 Arguments on_extended {C}.
 Arguments handle {C}.
 Arguments retry_timeout {C}.
+Arguments swallow {C}.
 Arguments run_remove {C}.
 Arguments EvNewCircuit {C}.
 Arguments EvMsg {C}.
